@@ -13,8 +13,8 @@ ACTIONS = ["Init", "Bump", "Shift", "Swap"]
 # read by bin/mkmanifest
 META = {
     "category": "model_checking",
-    "text": "TLC checks the four RFC 1982 laws (a+n > a for n in 1..2^(k-1)-1, antisymmetry, undefined exactly at distance 2^(k-1), shift invariance) and the equality of the transcribed partial_cmp/add with the RFC text for all pairs and all addends at 8 bits (9 and 11 bits thorough); every one of these k-bit evaluations is lifted to 32 bits by the exact embedding x*2^(32-k)+c (several offsets c, for ordered pairs also different offsets per side, which reaches the distances 2^31-1 and 2^31+1) and executed on Serial (partial_cmp, the five operators, add), Timestamp, SOA/RRSIG wire round trips, sign_rrset's validity-period check, the zone diff builder's serial-range check and new::base::Serial; recorded library runs on dense 32-bit operands (boundary distances 2^31+-2, neighbourhoods of 0 and 2^32-1, panicking addends, the zone store's SOA serial bump on commit) are validated by TLC through a 16-bit-limb model that TLC proves equal to the integer model at small widths.",
-    "note": "Trusted: TLC, the transcription of RFC 1982 in Serial.tla, the uniformity in the limb base of SerialLimbs.tla (equivalence is TLC-checked at limb widths 4/5, used at 16), the harness. zonetree's Version type is private and the IXFR `query_serial >= soa.serial()` decision in the XFR middleware is not driven; both delegate to Serial::partial_cmp. Dense 2^64 coverage is sampled by traces; the full sweep of all 2^32 differences uses a Rust reference that the same TLC runs bind to the spec and is reported separately as an extension, as is the optional Apalache run for BITS=32.",
+    "text": "TLC checks the four RFC 1982 laws (a+n > a for n in 1..2^(k-1)-1, antisymmetry, undefined exactly at distance 2^(k-1), shift invariance) and the equality of the transcribed partial_cmp/add with the RFC text for all pairs and all addends at 8 bits (9 and 11 bits thorough); every one of these k-bit evaluations is lifted to 32 bits by the exact embedding x*2^(32-k)+c (several offsets c, for ordered pairs also different offsets per side, which reaches the distances 2^31-1 and 2^31+1) and executed on Serial (partial_cmp, the five operators, add), Timestamp, SOA/RRSIG wire round trips, sign_rrset's validity-period check, the zone diff builder's serial-range check, the XFR middleware's IXFR decision (single SOA for a client with the same or a newer serial, transfer otherwise; XfrMiddlewareSvc::preprocess with a data provider that offers diffs) and new::base::Serial; recorded library runs on dense 32-bit operands (boundary distances 2^31+-2, neighbourhoods of 0 and 2^32-1, panicking addends, the zone store's SOA serial bump on commit) are validated by TLC through a 16-bit-limb model that TLC proves equal to the integer model at small widths.",
+    "note": "Trusted: TLC, the transcription of RFC 1982 in Serial.tla, the uniformity in the limb base of SerialLimbs.tla (equivalence is TLC-checked at limb widths 4/5, used at 16), the harness. zonetree's Version type is private (not driven; derives its order from Serial). Sites that compare serials/timestamps but are not bound here: validator check_sig / ttl_for_sig (plain u32 order, real clock; reported to C14), server cookie timestamp_ok (real clock, cannot straddle the wrap), new::edns::Cookie::verify (Range<new Serial>::contains, delegates to the bound partial_cmp), new::rdata Timestamp (not exported), Timestamp::to_system_time; net::client::stream and the XFR interpreter compare serials by equality only. Dense 2^64 coverage is sampled by traces; the full sweep of all 2^32 differences uses a Rust reference that the same TLC runs bind to the spec and is reported separately as an extension, as is the optional Apalache run for BITS=32.",
     "technique": "TLA+ spec (Serial.tla, SerialLimbs.tla) + TLC exhaustive; spec->impl replay through scaled embedding; impl->spec limb-encoded trace validation; reference sweep and Apalache as extensions",
     "design_ref": "DESIGN.md §4 C17",
 }
@@ -314,8 +314,16 @@ def run(ctx):
                "the thorough tier) and relied upon at width 16")
     ctx.assume("Soa's PartialOrd/Ord/CanonicalOrd compare serials as plain integers by design "
                "(record ordering, not zone-version ordering) and are not part of this property")
-    ctx.assume("zonetree Version (private type, derives PartialOrd from Serial) and the XFR "
-               "middleware's `query_serial >= soa.serial()` are not driven directly")
+    ctx.assume("zonetree Version (private type, derives PartialOrd from Serial) is not driven "
+               "directly; Versioned::get's `item.0 <= version` would need 2^31 commits to wrap")
+    ctx.assume("IXFR decision: RFC 1995 section 2 (same or newer client serial -> single SOA); "
+               "a transfer is any answer with more than one record (diff sequence or AXFR "
+               "fallback); at distance exactly 2^31 either answer is accepted")
+    ctx.assume("not bound (listed, not checked): validator check_sig/ttl_for_sig signature-time "
+               "tests (plain u32 order, real clock), server cookie timestamp_ok (real clock), "
+               "new::edns::Cookie::verify (Range<Serial>::contains), new::rdata Timestamp "
+               "(private), Timestamp::to_system_time; client stream / XFR interpreter use "
+               "serial equality only")
 
 
 def replay(ctx, case):
